@@ -70,6 +70,10 @@ pub enum Step {
     Endpoint { #[serde(default)] script: HashMap<String, Vec<crate::push::Outcome>>, #[serde(default)] default: Vec<crate::push::Outcome> },
     /// Waits (real time) until the endpoint has received `n` requests, at most `ms`.
     Waithttp { n: usize, ms: u64 },
+    /// Freezes / unfreezes the clock of a real-clock scenario (used to jump across an ack deadline
+    /// while the endpoint holds every in-flight exchange).
+    Pause {},
+    Resume {},
     /// Records a `quiet` event if the server stays completely idle for a virtual millisecond.
     Quiet {},
 }
@@ -245,6 +249,8 @@ pub async fn run_scenario(scenario: &Scenario, out: Option<Out>) -> Vec<Value> {
                 }
             }
             Step::Quiet {} => quiet(&world).await,
+            Step::Pause {} => tokio::time::pause(),
+            Step::Resume {} => tokio::time::resume(),
             Step::Parse { func, s } => world.ev("parse", crate::libcall::parse_event(&func, &s)),
             Step::Gate { name, turns } => {
                 world.ev("mark", json!({"name": format!("gate {} {}", name, turns)}));
